@@ -118,7 +118,7 @@ def main():
     for label, sc, exact in regression_scenarios():
         camp.add(label, sc, exact)
     r = ck.rng('scenarios')
-    n = 420 if ck.thorough() else 80
+    n = 1200 if ck.thorough() else 80
     ties = 0
     for i in range(n):
         nbv = (0, 0) if i % 2 == 0 else (1, 3)
